@@ -11,6 +11,9 @@ def consts(site, wf, sup):
     root = ["dc", "R", [["v", ["int"], ["req"], []]],
             [["classvars", [["type", ["str", "r"]]]]] + ([["discriminator", dopts], ["discr_field", "type"]] if site == "config" else [])]
     holder = ["dc", "HD", [["f", ["discr", root, dopts], ["req"], []]], []]
+    if site == "pair":
+        root2 = ["dc", "R2", [["v", ["int"], ["req"], []]], [["classvars", [["type", ["str", "r2"]]]]]]
+        holder = ["dc", "HD", [["f", ["tuple", [["discr", root, dopts], ["discr", root2, dopts]]], ["req"], []]], []]
     return dopts, root, holder
 
 
@@ -19,11 +22,12 @@ def run(prop, tier, seed):
     wd = tlc.scratch()
     maxlen = 4 if tier == "quick" else 5
     combos = [(s, wf, sup) for s in ("config", "field", "codec") for wf in (True, False) for sup in (False, True)
-              if not (s == "config" and sup)]
+              if not (s == "config" and sup)] + [("pair", True, False)]
     for site, wf, sup in combos:
-        cfg = core.cfg_text("MC_C12.cfg", Site=f'"{site}"', WithField=wf, Supertypes=sup, MaxLen=maxlen)
+        ml = maxlen - 1 if site == "pair" else maxlen          # the pair site has 16 inputs x 4 definitions: one step shorter
+        cfg = core.cfg_text("MC_C12.cfg", Site=f'"{site}"', WithField=wf, Supertypes=sup, MaxLen=ml)
         r = tlc.run_tlc("MC_C12", workdir=wd, workers=16, timeout=3000, cfg_text=cfg)
-        rep.add_tlc(r, f"MC_C12 site={site} field={wf} supertypes={sup} len<={maxlen}: VariantChoice RegistrySound NoInheritedTag")
+        rep.add_tlc(r, f"MC_C12 site={site} field={wf} supertypes={sup} len<={ml}: VariantChoice RegistrySound NoInheritedTag")
         if r.violated:
             raise tlc.MachineryError(f"model property violated on the reference spec: {r.violated}")
         behs = [p[1] for p in r.printed if p[0] == "beh"]
@@ -45,6 +49,12 @@ def run(prop, tier, seed):
         rep.selftests["deviant_walk_refuted"] = "VariantChoice" in rd.violated
     except tlc.MachineryError as e:
         rep.selftests["deviant_walk_refuted"] = "VariantChoice" in str(e)
+    cfg = core.cfg_text("MC_C12.cfg", Site='"pair"', WithField=True, Supertypes=False, MaxLen=4, RegMode='"shared"')
+    try:
+        rd = tlc.run_tlc("MC_C12", workdir=wd, workers=4, timeout=600, cfg_text=cfg)
+        rep.selftests["shared_registry_of_equal_discriminators_refuted"] = "VariantChoice" in rd.violated
+    except tlc.MachineryError as e:
+        rep.selftests["shared_registry_of_equal_discriminators_refuted"] = "VariantChoice" in str(e)
     rep.assumptions += ["class-level (Config) discriminators cannot use include_supertypes (README) -- that combination is outside the model",
                         "tags are unique per hierarchy (the statement speaks of THE unique eligible class)",
                         "without a field the order among accepting subclasses is not claimed: any accepting subclass is accepted by the replayer"]
